@@ -66,7 +66,7 @@ def parse_edges(out):
         except ValueError:
             continue
         e = json.loads(txt[5:])
-        edges.append((json.dumps(e["f"], separators=(",", ":")), (e["a"]["name"], e["a"]["arg"]),
+        edges.append((json.dumps(e["f"], separators=(",", ":")), (e["a"]["name"], e["a"]["arg"], e["a"]["c"], e["a"]["k"]),
                       json.dumps(e["t"], separators=(",", ":"))))
     return edges
 
@@ -196,17 +196,27 @@ def build_scripts(edges, rnd, maxlen, walks, walklen, allpaths):
             while k < len(sc) and sc[k][0] == "LeaseWon":
                 k += 1
             k = rnd.randint(1, k)
-            scripts[i] = [("PreLease", a[1]) for a in sc[:k]] + sc[k:]
+            scripts[i] = [("PreLease", a[1], 0, 0) for a in sc[:k]] + sc[k:]
             n_pre += 1
     classes = set(guard_class(f, a, t) for f in adj for a, t in adj[f] if f in pred)
     return scripts, dict(edges=total, states=len(pred), cover_scripts=cover_n, walks=walks, allpaths_scripts=n_all,
                          guard_classes=len(classes), prelease_scripts=n_pre)
 
 
+def step_json(a):
+    a = tuple(a) + (0, 0)
+    return {"name": a[0], "arg": a[1], "c": a[2], "k": a[3]}
+
+
+def step_str(a):
+    a = tuple(a) + (0, 0)
+    return "%s(%d)" % (a[0], a[1]) if not a[2] else "%s(%d,c%d,k%d)" % (a[0], a[1], a[2], a[3])
+
+
 def write_scripts(path, scripts, start=0):
     with open(path, "w") as fh:
         for i, s in enumerate(scripts):
-            fh.write(json.dumps({"id": start + i, "steps": [{"name": a[0], "arg": a[1]} for a in s]}) + "\n")
+            fh.write(json.dumps({"id": start + i, "steps": [step_json(a) for a in s]}) + "\n")
 
 
 # ---------------------------------------------------------------------------------------------------------
@@ -256,7 +266,7 @@ def replay(vh, scripts, work, tag, step_ms, hang_ms, shards=None, start=0):
         sp = os.path.join(work, "%s.scripts.%d.ndjson" % (tag, k))
         with open(sp, "w") as fh:
             for sid, s in ch:
-                fh.write(json.dumps({"id": sid, "steps": [{"name": a[0], "arg": a[1]} for a in s]}) + "\n")
+                fh.write(json.dumps({"id": sid, "steps": [step_json(a) for a in s]}) + "\n")
         jobs.append(dict(scripts=sp, out=os.path.join(work, "%s.trace.%d.ndjson" % (tag, k)), step_ms=step_ms, hang_ms=hang_ms))
     stats = dict(scripts=0, steps=0, abandoned=0)
     with concurrent.futures.ThreadPoolExecutor(max_workers=len(jobs)) as ex:
@@ -299,7 +309,7 @@ def validate(recs, work, tag, max_submit=None):
     for r in lines:
         if r["e"] == "reset":
             cur = 0
-        elif r["name"] == "Submit":
+        elif r["name"] in ("Submit", "SubmitSw"):
             cur += 1
             nsub = max(nsub, cur)
     path = os.path.join(work, "%s.trace.ndjson" % tag)
@@ -309,7 +319,7 @@ def validate(recs, work, tag, max_submit=None):
     cfg = open(os.path.join(SPEC_DIR, "ManifestManagerTrace.cfg")).read()
     cfg = re.sub(r"MaxSubmit = \d+", "MaxSubmit = %d" % max(nsub, max_submit or 0), cfg)
     r = vlib.tlc(SPEC_DIR, "ManifestManagerTrace", "Trace_run.cfg", workers=1, timeout=3000, deadlock=False,
-                 extra_files={"Trace_run.cfg": cfg}, copy_files={"trace.ndjson": path}, heap="6g")
+                 extra_files={"Trace_run.cfg": cfg}, copy_files={"trace.ndjson": path}, heap="3g")
     done = _printed(r.out, "TRACE-DONE")
     if not r.ok or not done or done[-1]["l"] != len(lines):
         raise vlib.Inconclusive("trace validation did not run to the end of %s (%d lines): %s\n%s" % (
@@ -345,11 +355,11 @@ def validate_sharded(recs, work, tag, shards):
 
 def script_of(recs, script_id):
     """The stimuli of one recorded script, as given (without the final shutdown the harness appends)."""
-    return [(r["name"], r["arg"]) for r in recs if r["e"] == "step" and r["script"] == script_id]
+    return [(r["name"], r["arg"], r.get("c", 0), r.get("k", 0)) for r in recs if r["e"] == "step" and r["script"] == script_id]
 
 
 def sig_of(prop, steps):
-    return "%s:%s" % (prop, ";".join("%s(%d)" % (n, a) for n, a in steps))
+    return "%s:%s" % (prop, ";".join(step_str(a) for a in steps))
 
 
 # ---------------------------------------------------------------------------------------------------------
@@ -466,15 +476,16 @@ def run(pid, tier, seed, replay_path):
     with concurrent.futures.ThreadPoolExecutor(max_workers=4) as pool:
         # ---- J1 (in the background while the code is being driven) -------------------------------------
         j1 = pool.submit(vlib.tlc, SPEC_DIR, "ManifestManager", cfg["mc"], workers=max(2, vlib.NCPU // 2), timeout=3000,
-                         deadlock=False, heap="12g")
-        j1l = pool.submit(vlib.tlc, SPEC_DIR, "ManifestManager", cfg["live"], workers=2, timeout=1500, deadlock=False)
+                         deadlock=False, heap="4g")
+        j1l = pool.submit(vlib.tlc, SPEC_DIR, "ManifestManager", cfg["live"], workers=2, timeout=1500, deadlock=False, heap="2g")
+        jrt = pool.submit(repo_tests, vh, work)
         j1s = None
         if cfg["sim"]:
             j1s = pool.submit(vlib.tlc, SPEC_DIR, "ManifestManager", "MC_sim.cfg", workers=4, timeout=1500, deadlock=False,
-                              simulate=dict(num=cfg["sim"]["num"], depth=cfg["sim"]["depth"], seed=seed))
+                              simulate=dict(num=cfg["sim"]["num"], depth=cfg["sim"]["depth"], seed=seed), heap="2g")
 
         # ---- J2: generation -----------------------------------------------------------------------------
-        g = vlib.tlc(SPEC_DIR, "ManifestManagerGen", cfg["gen"], workers=4, timeout=1500, deadlock=False)
+        g = vlib.tlc(SPEC_DIR, "ManifestManagerGen", cfg["gen"], workers=4, timeout=1500, deadlock=False, heap="2g")
         vlib.tlc_require_ok(g, "J2 generation")
         edges = parse_edges(g.out)
         if len(edges) < 100:
@@ -495,6 +506,10 @@ def run(pid, tier, seed, replay_path):
         if cfg["free_runs"]:
             free_recs, fstats = free_run(vh, work, seed, cfg["free_runs"], cfg["free_ops"])
 
+        # ---- the repository's own provider/manifest tests, traced through the same hooks ---------------------
+        rt_recs, rtstats = jrt.result()
+        free_recs = free_recs + rt_recs
+
         # ---- J3 -----------------------------------------------------------------------------------------
         tv = time.time()
         viols, drifts = validate_sharded(recs, work, "j3-", max(1, min(8, vlib.NCPU // 2)))
@@ -511,7 +526,7 @@ def run(pid, tier, seed, replay_path):
         executed = set()
         for r in recs:
             if r["e"] == "step" and not r.get("timeout"):
-                executed.add((r["name"], r["arg"], r["st"]["svc"], r["st"]["mgr"], tuple(r["st"]["leases"]), r["st"]["data"],
+                executed.add((r["name"], r["arg"], r.get("c", 0), r["st"]["svc"], r["st"]["mgr"], tuple(r["st"]["leases"]), r["st"]["data"],
                               r["st"]["fetch"], len(r["st"]["requests"]), len(r["sends"]), len(r["ann"])))
 
         # ---- verdict ------------------------------------------------------------------------------------
@@ -562,16 +577,17 @@ def run(pid, tier, seed, replay_path):
                 first_free[p] = (r, p)
         for r, p in first_free.values():
             sid = r["script"]
-            violations.append(vlib.Violation(PID, "free:%s:%s(%s)" % (p, r["name"], r["arg"]),
-                                             "%s fails in free-running execution %s at step %d %s(%s)\nobserved: %s" % (
-                                                 p, sid, r["i"], r["name"], r["arg"], json.dumps(r)),
+            kind = "repotest" if sid >= 2000000 else "free"
+            violations.append(vlib.Violation(PID, "%s:%s:%s(%s)" % (kind, p, r["name"], r["arg"]),
+                                             "%s fails in %s execution %s at step %d %s(%s)\nobserved: %s" % (
+                                                 p, kind, sid, r["i"], r["name"], r["arg"], json.dumps(r)),
                                              {"trace.ndjson": "\n".join(json.dumps(x) for x in free_recs if x["script"] == sid) + "\n"}))
 
         # keep one violation per signature, shortest first
         uniq = {}
         for v in violations:
             uniq.setdefault(v.signature, v)
-        violations = sorted(uniq.values(), key=lambda v: (v.signature.startswith("free:"), len(v.signature), v.signature))[:6]
+        violations = sorted(uniq.values(), key=lambda v: (v.signature.startswith(("free:", "repotest:")), len(v.signature), v.signature))[:6]
 
         # ---- binding self-test --------------------------------------------------------------------------
         st_ok, st_res = selftest(recs, work)
@@ -595,7 +611,7 @@ def run(pid, tier, seed, replay_path):
     if inconclusive and not violations:
         raise vlib.Inconclusive("; ".join(inconclusive[:3]))
 
-    samples = [";".join("%s(%d)" % a for a in s) for s in (scripts[:2] + scripts[ginfo["cover_scripts"]:ginfo["cover_scripts"] + 2])]
+    samples = [";".join(step_str(a) for a in s) for s in (scripts[:2] + scripts[ginfo["cover_scripts"]:ginfo["cover_scripts"] + 2])]
     coverage = {
         "states": r1.distinct, "transitions": r1.generated, "depth": r1.depth,
         "liveness_states": r1l.distinct,
@@ -605,8 +621,9 @@ def run(pid, tier, seed, replay_path):
         "scripts": len(scripts), "cover_scripts": ginfo["cover_scripts"], "random_walks": ginfo["walks"],
         "allpaths_scripts": ginfo["allpaths_scripts"], "scripts_with_leases_held_at_startup": ginfo["prelease_scripts"],
         "scripts_with_manifest_watchdog_configured": sum(1 for i in range(len(scripts)) if i % 2 == 1),
-        "traces_validated_against_impl": rstats["scripts"] + fstats["runs"],
-        "evaluations": rstats["steps"] + fstats["steps"],
+        "traces_validated_against_impl": rstats["scripts"] + fstats["runs"] + rtstats["runs"],
+        "evaluations": rstats["steps"] + fstats["steps"] + rtstats["steps"],
+        "repo_test_runs_traced": rtstats["runs"], "repo_test_steps": rtstats["steps"],
         "free_running_runs": fstats["runs"], "free_running_steps": fstats["steps"],
         "distinct_nontrivial": len(executed),
         "rule": "distinct (stimulus, argument, observed post-state shape: svc, mgr, leases, data version, fetch, queue length, "
@@ -623,6 +640,26 @@ def run(pid, tier, seed, replay_path):
 
 
 # ---------------------------------------------------------------------------------------------------------
+
+def repo_tests(vh, work):
+    """Run the repository's own provider/manifest manager tests with the hooks on (VERIF_TRACE) and fold the recorded
+    events into step records. A failing test run is inconclusive (the tests are not ours to judge)."""
+    trace = os.path.join(work, "repotests.events.ndjson")
+    out = os.path.join(work, "repotests.trace.ndjson")
+    env = dict(vlib.GOENV, VERIF_TRACE=trace)
+    rc, txt = vlib.run(["go", "test", "-tags", "verif", "-count=1", "-run", "TestManager", "./provider/manifest/"],
+                       cwd=vlib.REPO, env=env, timeout=1200)
+    if rc != 0 or not os.path.exists(trace):
+        vlib.log("[C20] the repository's provider/manifest tests did not pass with -tags verif (not judged):\n" + txt[-1500:])
+        return [], dict(runs=0, steps=0)
+    rc, txt = vlib.run([vh, "mmanager", "fold", "-repo", vlib.REPO, "-in", trace, "-out", out], timeout=300)
+    last = [ln for ln in txt.splitlines() if ln.startswith("{")]
+    if rc != 0 or not last:
+        raise vlib.Inconclusive("vh mmanager fold failed rc=%s\n%s" % (rc, txt[-2000:]))
+    st = json.loads(last[-1])
+    recs = [json.loads(ln) for ln in open(out) if ln.strip()]
+    return recs, dict(runs=st["runs"], steps=st["steps"])
+
 
 def free_run(vh, work, seed, runs, ops):
     """Free-running randomised concurrent drivers (no gates); the hooks order the manager's iterations."""
